@@ -259,8 +259,21 @@ func main() {
 	os.Exit(exit)
 }
 
+// runSeedOf must equal sim.RunSeed.
+func runSeedOf(base uint64, run int) uint64 {
+	x := base*0x9E3779B97F4A7C15 + uint64(run)*0xBF58476D1CE4E5B9 + 0x94D049BB133111EB
+	x ^= x >> 30
+	x *= 0xBF58476D1CE4E5B9
+	x ^= x >> 27
+	x *= 0x94D049BB133111EB
+	x ^= x >> 31
+	return x
+}
+
 func workerCmd(bin, prop string, env ...string) *exec.Cmd {
-	cmd := exec.Command(bin, "-test.run", "^TestWorker$", "-test.timeout", "0", "-test.count", "1")
+	// address-space limit per worker: a run that drives the engine into a runaway
+	// allocation kills one worker (reported as harness trouble), not the machine
+	cmd := exec.Command("/bin/bash", "-c", "ulimit -v 6000000; exec \"$0\" \"$@\"", bin, "-test.run", "^TestWorker$", "-test.timeout", "0", "-test.count", "1")
 	cmd.Env = append(os.Environ(), "GODEBUG=asyncpreemptoff=1", "GOMAXPROCS=1", "VERIF_PROP="+prop)
 	cmd.Env = append(cmd.Env, env...)
 	return cmd
@@ -295,13 +308,105 @@ func runWorker(bin, prop, tier string, seed uint64, from, to int, a *agg, sp spe
 	}
 	err = cmd.Wait()
 	if err != nil || got < to-from {
+		// did it die inside the engine? then that run is a violation and the rest of the chunk is re-run
+		if class, msg, ok := classifyCrash(prop, stderr.String()); ok {
+			run := from + got
+			if k := strings.LastIndex(stderr.String(), "RUNSTART "); k >= 0 {
+				fmt.Sscanf(stderr.String()[k:], "RUNSTART %d", &run)
+			}
+			if cs, ok := genCase(bin, prop, tier, seed, run); ok {
+				rs := runSeedOf(seed, run)
+				rf := &simcore.ReplayFile{Property: prop, Harness: sp.Harness, Seed: rs, Run: run, Case: cs, Choices: nil, Class: class, Violation: msg}
+				rf.Original.Ops = len(cs.Ops)
+				p := filepath.Join("/verif/out", prop, fmt.Sprintf("replay-%d-%d.json", rs, run))
+				rf.Write(p)
+				res := simcore.Result{Seed: rs, Run: run, Outcome: "crash", Violation: msg, Class: class, Replay: p, NChoices: 1 << 30}
+				b, _ := json.Marshal(res)
+				a.add(res, string(b))
+				if run+1 < to {
+					return runWorker(bin, prop, tier, seed, run+1, to, a, sp)
+				}
+				return ""
+			}
+		}
 		tail := stderr.String()
+		for _, marker := range []string{"fatal error:", "panic:", "WATCHDOG", "runtime: out of memory"} {
+			if i := strings.Index(tail, marker); i >= 0 {
+				j := strings.LastIndex(tail[:i], "RUNSTART")
+				if j < 0 {
+					j = i
+				}
+				tail = tail[j:]
+				if len(tail) > 5000 {
+					tail = tail[:5000]
+				}
+				break
+			}
+		}
 		if len(tail) > 6000 {
 			tail = tail[len(tail)-6000:]
 		}
 		return fmt.Sprintf("worker for runs [%d,%d) ended abnormally (%v, %d/%d results); stderr tail:\n%s", from, to, err, got, to-from, tail)
 	}
 	return ""
+}
+
+// classifyCrash recognises a worker that died inside repository code (fatal
+// runtime error or unrecovered panic with a reduction.dev/reduction frame on the
+// crashing goroutine's stack). Such a death is an engine crash on valid input,
+// reported as a violation with a seed-only replay file; anything else is
+// harness trouble.
+func classifyCrash(prop, stderr string) (class, msg string, ok bool) {
+	i := strings.Index(stderr, "fatal error:")
+	if j := strings.Index(stderr, "\npanic:"); i < 0 || (j >= 0 && j < i) {
+		if j >= 0 {
+			i = j + 1
+		}
+	}
+	if i < 0 {
+		return "", "", false
+	}
+	rest := stderr[i:]
+	first := rest
+	if k := strings.Index(first, "\n"); k >= 0 {
+		first = first[:k]
+	}
+	// first goroutine block after the message = the crashing goroutine
+	blk := rest
+	if k := strings.Index(blk, "\ngoroutine "); k >= 0 {
+		blk = blk[k+1:]
+		if e := strings.Index(blk, "\n\n"); e >= 0 {
+			blk = blk[:e]
+		}
+	}
+	for _, l := range strings.Split(blk, "\n") {
+		if strings.HasPrefix(l, "reduction.dev/reduction/") && !strings.Contains(l, "verifsimrt") {
+			fn := l
+			if k := strings.Index(fn, "("); k > 0 {
+				fn = fn[:k]
+			}
+			fn = strings.TrimPrefix(fn, "reduction.dev/reduction/")
+			// same class as a recovered panic: in a fresh process the same defect
+			// usually surfaces as a panic (e.g. the garbage-sized allocation succeeds
+			// and the read behind it fails)
+			return prop + "/panic", fmt.Sprintf("%s/panic process died: %s @ %s", prop, first, fn), true
+		}
+	}
+	return "", "", false
+}
+
+func genCase(bin, prop, tier string, seed uint64, run int) (simcore.Case, bool) {
+	cmd := workerCmd(bin, prop, "VERIF_TIER="+tier, fmt.Sprintf("VERIF_SEED=%d", seed), fmt.Sprintf("VERIF_FROM=%d", run), fmt.Sprintf("VERIF_TO=%d", run+1), "VERIF_MODE=gen")
+	out, _ := cmd.Output()
+	for _, line := range strings.Split(string(out), "\n") {
+		if strings.HasPrefix(line, "{") {
+			var cs simcore.Case
+			if json.Unmarshal([]byte(line), &cs) == nil {
+				return cs, true
+			}
+		}
+	}
+	return simcore.Case{}, false
 }
 
 func (a *agg) add(r simcore.Result, raw string) {
@@ -378,13 +483,24 @@ func doReplay(bin, prop, path string, verbose bool) int {
 		}
 	}
 	if !found {
-		fmt.Fprintf(os.Stderr, "replay produced no result (%v): %s\n", err, stderr.String())
+		if class, msg, ok := classifyCrash(prop, stderr.String()); ok {
+			if verbose {
+				fmt.Printf("replay: %s\n", msg)
+			}
+			if class == rf.Class {
+				if verbose {
+					fmt.Printf("VIOLATION property=%s replay=%s\n", prop, path)
+				}
+				return 1
+			}
+		}
+		fmt.Fprintf(os.Stderr, "replay produced no result (%v): %.3000s\n", err, stderr.String())
 		return 2
 	}
 	if verbose {
 		fmt.Printf("replay: class=%q log_hash=%x (file: class=%q log_hash=%x)\n%s\n", res.Class, res.LogHash, rf.Class, rf.LogHash, res.Violation)
 	}
-	if res.Class != rf.Class || res.LogHash != rf.LogHash {
+	if res.Class != rf.Class || (res.LogHash != rf.LogHash && rf.LogHash != 0) {
 		if verbose {
 			fmt.Println("replay: MISMATCH")
 		}
